@@ -264,6 +264,7 @@ func genVC(P *Program, C *Contracts, S *Sorts, key string, pure map[*ssa.Functio
 					}
 					senv := f.contractEnv(ct, sb, f.st, entry)
 					eo.SubGoals = append(eo.SubGoals, implies(and(retPC, r.pc), substSX(e.Term, senv)))
+					eo.SubBlks = append(eo.SubBlks, r.blk)
 				}
 			}
 			if os.Getenv("GOVC_SPLIT") != "" {
